@@ -153,7 +153,7 @@ pub open spec fn wf_release<T>(fx: Fx<T>) -> bool {
 }
 /// no waiter was taken off the list and then forgotten; nothing was used that was not popped (O-pop-used / O-own-pop)
 pub open spec fn pops_used<T>(fx: Fx<T>) -> bool {
-    forall|t: SignalTerminator<T>, ro: Role| fx.popped.contains((t, ro)) ==> fx.used.contains(t)
+    fx.used =~= fx.popped
 }
 pub open spec fn no_effects<T>(fx: Fx<T>) -> bool {
     fx.sent.len() == 0 && fx.taken.len() == 0 && fx.terminated.len() == 0
@@ -195,11 +195,11 @@ pub open spec fn observed<T>(fx: Fx<T>) -> bool {
     &&& fx.cs.len() == 1 && !fx.held
     &&& fx.cs[0].post == fx.cs[0].pre
     &&& no_effects(fx)
-    &&& fx.popped == Set::<(SignalTerminator<T>, Role)>::empty()
+    &&& fx.popped == Multiset::<(SignalTerminator<T>, Role)>::empty()
 }
 /// a call that did not enter any critical section and had no effect (realtime variants when the lock is busy)
 pub open spec fn no_section<T>(fx: Fx<T>) -> bool {
-    fx.cs.len() == 0 && !fx.held && no_effects(fx) && fx.popped == Set::<(SignalTerminator<T>, Role)>::empty()
+    fx.cs.len() == 0 && !fx.held && no_effects(fx) && fx.popped == Multiset::<(SignalTerminator<T>, Role)>::empty()
 }
 pub open spec fn nothing_registered<T>(fx: Fx<T>) -> bool {
     forall|k: int| 0 <= k < fx.cs.len() ==> (#[trigger] alpha(fx.cs[k].post)).s.len() <= alpha(fx.cs[k].pre).s.len() && alpha(fx.cs[k].post).r.len() <= alpha(fx.cs[k].pre).r.len()
@@ -284,3 +284,5 @@ pub open spec fn slot_handed_back<T>(sig: &Signal<T>, slot: MaybeUninit<T>, data
     &&& sig.delivered() ==> data is None
     &&& !sig.delivered() ==> data == Some(slot.mem_contents().value())
 }
+
+pub open spec fn payloads<T>(s: Seq<SignalTerminator<T>>) -> Seq<T> { s.map_values(|t: SignalTerminator<T>| payload(t)) }
